@@ -51,6 +51,23 @@ def main():
     f.set_outputs(*f.inputs())
     atoms.append(V.Function(f.hugr))
 
+    def declared_ok(v, sr):
+        """the serialized form declares exactly the reported type (sum values and extension constants carry
+        their type; nested values recursively), the tag and one entry per field"""
+        if isinstance(v, V.Tuple):
+            return sr.get("v") == "Tuple" and len(sr["vs"]) == len(v.vals) and all(declared_ok(x, y) for x, y in zip(v.vals, sr["vs"]))
+        if isinstance(v, V.Sum):
+            want = json.loads(T.Sum(v.typ.variant_rows)._to_serial_root().model_dump_json()) if not isinstance(v.typ, T.UnitSum) else json.loads(v.typ._to_serial_root().model_dump_json())
+            got = dict(sr.get("typ") or {})
+            want.pop("t", None)
+            got.pop("t", None)
+            return sr.get("v") == "Sum" and sr["tag"] == v.tag and got == want and len(sr["vs"]) == len(v.vals) and all(declared_ok(x, y) for x, y in zip(v.vals, sr["vs"]))
+        if isinstance(v, V.Extension):
+            return sr.get("v") == "Extension" and sr["typ"] == json.loads(v.typ._to_serial_root().model_dump_json())
+        if hasattr(v, "to_value") and not isinstance(v, V.Function):
+            return declared_ok(v.to_value(), sr)
+        return True
+
     def level(prev):
         out = []
         for a, b in itertools.product(prev, repeat=2):
@@ -74,7 +91,8 @@ def main():
         try:
             k = O.Const(v).port_kind(__import__("hugr.hugr.node_port", fromlist=["x"]).OutPort(__import__("hugr.hugr.node_port", fromlist=["x"]).Node(1), 0))
             ok = isinstance(k, T.ConstKind) and k.ty == t
-            v._to_serial_root()
+            sr = json.loads(v._to_serial_root().model_dump_json())
+            ok = ok and declared_ok(v, sr)
         except Exception as e:  # noqa: BLE001
             ok = False
         if not ok and len(violations) < 6:
